@@ -42,7 +42,8 @@ def main():
         tot = sum(1 for r in b.values() for c in checks if isinstance(r.get(c), dict))
         loud = [(n, c) for n, r in b.items() for c in checks if isinstance(r.get(c), dict) and r[c].get('rc') != 0]
         lines.append('')
-        lines.append(f"Behaviour-preserving refactors (`selftest/benign/`): {len(b)} patches x {len(checks)} checks = {tot} runs, {len(loud)} alarms" + (': ' + ', '.join(f'{n}/{c}' for n, c in loud[:20]) if loud else '.'))
+        lines.append(f"Behaviour-preserving refactors (`selftest/benign/`): {len(b)} patches x {len(checks)} checks = {tot} runs, {len(loud)} alarms" + (': ' + ', '.join(f'{n}/{c}' for n, c in loud[:20]) if loud else '.')
+                     + "  (All cells of the fast checks and every cell of the fourth-round patches are from the final engine version; cells of the slow checks that were silent in an earlier complete run were not all re-run.)  The alarms on r2w1_2 are the accepted limitation of 8.7 (`flat_map`).")
     block = '\n'.join(lines)
     p = os.path.join(V, 'DESIGN.md')
     s = open(p).read()
